@@ -119,6 +119,12 @@ func judge3(s ref.Shape3, o, d V3) judged3 {
 		if h.Feat < tolFeature*size {
 			return fail("near-edge-or-rim")
 		}
+		// A feature of size rho seen from a distance L is located by the closed-form intersections
+		// to about eps*L^2/rho (cancellation in the discriminant): not decided when that is not
+		// small against the feature itself.
+		if L := o.Dist(h.P); 2.3e-16*L*L > 0.01*h.Feat*h.Feat {
+			return fail("feature-too-small-for-its-distance")
+		}
 		if i > 0 && (h.T-j.hits[i-1].T)*dn < tolSeparate*size {
 			return fail("coincident-hits")
 		}
@@ -233,7 +239,7 @@ func checkRay3(c *kase, s *subject3, o, d V3) {
 		res := math.Abs(s.ref.SDF(p))
 		c.Count("clause.on_surface", 1)
 		c.Max("worst_on_surface_residual_rel."+s.api, res/size)
-		if !(res <= onTol+1e-12*p.Dist(s.ref.Center())) && !c.fired(key("RayCollisions", "on-surface")) {
+		if !(res <= onTol+1e-12*p.Dist(s.ref.Center())+farFeatureAllowance3(s.ref, o, d, g.Scale, size)) && !c.fired(key("RayCollisions", "on-surface")) {
 			w := base()
 			w["point"] = dec3(p)
 			w["reference_sdf"] = s.ref.SDF(p)
@@ -277,6 +283,10 @@ func checkRay3(c *kase, s *subject3, o, d V3) {
 	}
 
 	// reference-based clauses
+	if mp, L := minPart3(s.ref), o.Dist(s.ref.Center())+size; 2.3e-16*L*L > 0.01*mp*mp {
+		c.Undecided("ray3:a-part-is-too-small-for-its-distance-from-the-origin")
+		return
+	}
 	j := judge3(s.ref, o, d)
 	if !j.general {
 		c.Undecided("ray3:" + j.reason)
@@ -370,7 +380,9 @@ func checkBall3(c *kase, s *subject3, ctr V3, r float64) {
 	got := s.coll.SphereCollision(ctr.C3(), r)
 	want := math.Abs(sd) <= r
 	margin := math.Abs(math.Abs(sd) - r)
-	if margin <= tolTouch*(size+r+ctr.Dist(s.ref.Center())) {
+	// also relative to the magnitude of the coordinates themselves: a micrometre-sized shape a few
+	// units away from the coordinate origin is only known to 1e-16 of those units
+	if margin <= tolTouch*(size+r+ctr.Dist(s.ref.Center()))+1e-13*(ctr.Norm()+s.ref.Center().Norm()) {
 		c.Undecided("ball3:near-touching")
 		return
 	}
@@ -595,6 +607,9 @@ func genRay3(rng *rand.Rand, s *subject3) (o, d V3) {
 	}
 	if rng.Intn(2) == 0 {
 		d = d.Scale(logUniform(rng, -3, 3))
+	} else if rng.Intn(6) == 0 {
+		// very short or very long direction vectors: the ray parameter scales inversely
+		d = d.Scale(logUniform(rng, -6, 6))
 	}
 	return o, d
 }
@@ -685,4 +700,42 @@ func exercise3(c *kase, s *subject3, rays, balls, points int) {
 		checkContains3(c, s, p, m)
 	}
 	c.Count(s.api+".instances", 1)
+}
+
+// farFeatureAllowance3: see farFeatureAllowance2.
+func farFeatureAllowance3(sh ref.Shape3, o, d V3, scale, size float64) float64 {
+	// the smallest part of the shape (a rounding error can even invent a hit on a part the exact
+	// ray misses), or the feature of the nearest reference hit if that is smaller
+	feat := minPart3(sh)
+	for _, h := range sh.RayHits(o, d) {
+		if h.Feat > 0 && h.Feat < feat && math.Abs(h.T-scale)*d.Norm() < size {
+			feat = h.Feat
+		}
+	}
+	if !(feat > 0) {
+		return math.Inf(1)
+	}
+	L := d.Norm() * scale
+	return 64 * 2.3e-16 * L * L / feat
+}
+
+// minPart3 is the size of the smallest constituent of a reference shape.
+func minPart3(sh ref.Shape3) float64 {
+	switch t := sh.(type) {
+	case *ref.Union3:
+		m := math.Inf(1)
+		for _, p := range t.Parts {
+			m = math.Min(m, minPart3(p))
+		}
+		return m
+	case *ref.Similarity3:
+		return t.S * minPart3(t.Inner)
+	case *ref.Prism:
+		return math.Min(minPart2(t.Base), (t.Z1-t.Z0)/2)
+	case *ref.Capsule:
+		return math.Min(t.Size(), t.R)
+	case *ref.Cylinder:
+		return math.Min(t.Size(), t.R)
+	}
+	return sh.Size()
 }
